@@ -14,6 +14,7 @@ RULE = ("stateless enumeration of call histories on real generator objects: ever
         "exploration of lc_2exp generators with m2exp = 8..20 (all 2^m states traversed through the real generator: output value frequencies, "
         "per-bit balance and per-bit period); fixed wide-tolerance frequency checks for MT and the table LC generators (declared non-"
         "exhaustive). states = distinct (generator kind, seed, history prefix) nodes, transitions = generator calls.")
+RULE = RULE + (" " + 'Later additions: copies and twins over draws longer than the MT buffer; re-seeded states against fresh ones; mpn_urandomm on moduli B^k; mpz_urandomm / gmp_urandomm_ui / gmp_urandomb_ui must reach both halves of their range; health of every lc_2exp_size table entry; mpf destinations preloaded limb by limb.')
 ASSUMPTIONS = ["uniformity of MT and the 32..128-bit table LC generators is bounded-sample evidence with very wide tolerance (>= 8 sigma), not an exhaustive statement",
                "the obsolete global-state functions (mpz_random, mpn_random ...) are excluded as in the property"]
 BUDGET = {"quick": 300, "thorough": 1800}
